@@ -187,6 +187,8 @@ HARNESS_KINDS = {
     'thread': ('hx_thread.cpp', ['src/thread/epoch_manager.cpp', 'src/thread/component/epoch.cpp',
                                  'src/thread/epoch_guard.cpp'], ['-DVERIF_SHIM_HEARTBEAT']),
     'zipf': ('hx_zipf.cpp', ['src/random/zipf.cpp'], ['NOSHIM']),
+    # static-initialisation probe of IDManager: plain build (no shim), the repository's id_manager.cpp is included by the probe
+    'early': ('hx_early.cpp', [], ['NOSHIM']),
 }
 
 
